@@ -172,7 +172,8 @@ def _ser(v):
 
 def _deser(v):
     if v[0] == "H":
-        return ("H", tuple(tuple(x) for x in v[1]), v[2], {int(h): x for h, x in v[3]}, v[4])
+        # hours since the epoch; a time stamp off the hour keeps its fraction (see efx.project_value)
+        return ("H", tuple(tuple(x) for x in v[1]), v[2], {(int(h) if float(h).is_integer() else float(h)): x for h, x in v[3]}, v[4])
     if v[0] == "D":
         return ("D", {k: _deser(x) for k, x in v[1].items()})
     if v[0] == "Q":
